@@ -7,7 +7,9 @@ problog/tasks/mpe.py:main_mpe_maxsat / main_mpe_semiring call them, and compared
 optimiser R8 over all possible worlds (vf/ref/optimise.py on top of R1)."""
 import contextlib
 import io
+import itertools
 import math
+from fractions import Fraction
 import os
 
 from ..core import Prop, watchdog, WatchdogTimeout
@@ -145,30 +147,45 @@ def judge(ref, out, mode):
             return None, "unsat-as-zero-probability"
         return "unsat-not-reported", "P(evidence)=0 but reported probability %.10g with %s" % (out[1], fmt(out[2]))
     if tag == "unsat":
-        return "spurious-unsat", "reported unsatisfiable (%s), max P(world and evidence) = %.10g" % (out[1], float(ref["best_a"]))
+        return "spurious-unsat", "reported unsatisfiable (%s) but P(evidence) = %.10g" % (out[1], float(ref["pe"]))
     if tag == "error":
-        return "error-must-answer:%s" % out[1], "max P(world and evidence) = %.10g" % float(ref["best_a"])
+        return "error-must-answer:%s" % out[1], "P(evidence) = %.10g" % float(ref["pe"])
     prob, lits = out[1], out[2]
     plain = plain_choice_atoms(ref["gp"])
     judged = [(a, s) for a, s in lits if mode == "maxsat" or a in plain]
     slack = math.exp(-ref["nlits"] / W_MULT) if mode == "maxsat" else 1.0
-    bests = (ref["best_a"], ref["best_b"])
+    n = ref["nchoices"]
+    exc = ref["excludable"][:4]
+    variants = []  # the sets of choices whose probabilities are multiplied: all, or all but some excludable ones
+    for k in range(len(exc) + 1):
+        for drop in itertools.combinations(exc, k):
+            variants.append([i for i in range(n) if i not in drop])
+    if len(ref["excludable"]) > 4:
+        variants.append([i for i in range(n) if i not in ref["excludable"]])
+
+    def prod(probs, keep):
+        v = 1.0
+        for i in keep:
+            v *= float(probs[i])
+        return v
+
     match_any = False  # some evidence-consistent world agrees with the literals
     match_max = False  # ... and is maximal (within the quantisation)
-    for row in ref["consistent"]:
-        T = row[2]
-        if not all((a in T) == s for a, s in judged):
-            continue
-        match_any = True
-        for v in (0, 1):
-            pv, best = float(row[v]), float(bests[v])
+    matching = [row for row in ref["consistent"] if all((a in row[1]) == s for a, s in judged)]
+    match_any = bool(matching)
+    for keep in variants:
+        best = max(prod(row[0], keep) for row in ref["consistent"])
+        for row in matching:
+            pv = prod(row[0], keep)
             if pv >= best * slack - 1e-12:
                 match_max = True
                 if abs(pv - prob) <= TOL:
-                    return None, ""
-    exp = "max P(world and evidence) = %.10g" % float(bests[0])
-    if ref["ambiguous"]:
-        exp += " (%.10g over the choices whose body can hold)" % float(bests[1])
+                    return None, ("ok(choices outside the relevant ground program not counted)" if len(keep) < n else "")
+    allc = list(range(n))
+    exp = "max P(world and evidence) = %.10g" % max(prod(row[0], allc) for row in ref["consistent"])
+    if ref["excludable"]:
+        exp += " (%.10g without the choices that cannot influence the model)" % max(
+            prod(row[0], variants[-1]) for row in ref["consistent"])
     got = "reported %.10g with %s" % (prob, fmt(lits))
     if not match_any:
         return "assignment-inconsistent-with-evidence", "%s; no world satisfying the evidence agrees with these literals; %s" % (got, exp)
@@ -204,11 +221,15 @@ def _check_program(prog, mode):
     st["worlds"] = ref["nworlds"]
     if ref["negcycle"] or not ref["twovalued"]:
         return None, "skipped: negative cycle", st
-    st["nontrivial"] = len({r[0] for r in ref["consistent"]}) >= 2
+    vals = set()
+    for probs, T in ref["consistent"]:
+        v = Fraction(1)
+        for p in probs:
+            v *= p
+        vals.add(v)
+    st["nontrivial"] = len(vals) >= 2
     out = run_mpe(program_text(prog), mode)
     sym, detail = judge(ref, out, mode)
-    if sym is None and ref["ambiguous"] and not detail:
-        detail = "ok(ambiguous-grounding)"
     return sym, detail, st
 
 
@@ -248,7 +269,8 @@ class C20(Prop):
     assumptions = ["programs with a cycle through negation are skipped",
                    "semiring mode names choices, not atoms: only literals on atoms defined by a single probabilistic fact are judged there",
                    "a returned probability of 0 is accepted as a report of unsatisfiability (counted separately)",
-                   "choices whose clause body is false in every world may or may not be part of the ground program: both products accepted"]
+                   "choices whose clause body is false in every world or whose selection never changes the model may or may not be "
+                   "part of the ground program: every product that leaves out some of them is accepted"]
     # (family, shards, modes): one maxsatz process costs 0.1-0.3 s CPU, the semiring mode 3 ms
     families = {"quick": [("F2.3", 48, MODES), ("F1.2", 32, ("semiring",)), ("F3.1", 12, MODES), ("F2.2", 8, MODES),
                           ("F1.1", 8, MODES)],
